@@ -169,6 +169,16 @@ def rule_pure(ctx):
                                   f"the recorded statement is DuckDB SQL (rendered with dialect='duckdb') but is re-parsed with read={tagof(rd)}: "
                                   f"function arguments / subscripts are re-interpreted, so description names differ from the fetched columns")
         ctx.ob("C06.c", "description describes the recorded statement (DESCRIBE <_last_sql>)", okp, loc)
+        # the recorded text is the engine's own dialect, already rewritten once: the Snowflake->DuckDB stages are not idempotent on
+        # their output (lower-case aliases the package emits are folded again, generated list subscripts become JSON extractions)
+        again = sorted({tagof(e[2]).rsplit(".", 1)[-1] for e in p.effects if e[0] == "transform" and "parsed@" in tagof(e[1])})
+        ctx.ob("C06.c", "the re-parsed recorded statement reaches the engine without a second pass of the rewrite stages", not again, loc,
+               ", ".join(again[:6]))
+        if again:
+            ctx.violation("C06.c", "cursor", "FakeSnowflakeCursor._describe_last_sql", "recorded DuckDB statement rewritten again before DESCRIBE", loc,
+                          f"DESCRIBE <recorded DuckDB SQL> is sent through {len(again)} Snowflake->DuckDB rewrite stages ({', '.join(again[:5])}, ...) "
+                          f"a second time: what is described is no longer the statement that ran (the lower-case `status` alias is upper-cased, "
+                          f"generated list subscripts turn into JSON extractions), so description names / types differ from the fetched rows")
         if p.outcome == "return" and h.calls:
             prm = h.calls[0][1]
             okprm = isinstance(prm, Sym) and prm.tag == "LAST_PARAMS"
